@@ -5,7 +5,8 @@
      iface   "wsgi" | "wsgifw" (server offers wsgi.file_wrapper) | "asgi"
      code    status code;  form  how the application wrote it: "int" | "line" (registry status
              line, e.g. falcon.HTTP_204) | "enum" (http.HTTPStatus) | "xline" (status line with
-             a reason phrase of the application's own)
+             a reason phrase of the application's own) | "strcode" (just the code in a string,
+             '404') | "bytes" (a status line as a byte string) | "bytescode" (b'404')
      method  request method
      text, data, media   byte length of that body source, -1 = not set
      stream  "none" | "iter" (iterable with close()) | "file" (file-like with close()) |
@@ -31,7 +32,9 @@
 
    The emission is a state machine whose steps are the framework's emission steps, so that a
    fault falls *between any two* of them.  `ev` is the server-visible event sequence:
-     start(cl, ct)      start_response(..) / http.response.start
+     start(cl, ct, sl)  start_response(..) / http.response.start;  sl = the status handed to the
+                        server is well-formed: on WSGI a native string "DDD SP reason-phrase"
+                        (PEP 3333), on ASGI an int 100..999
      body(n, more, ..)  a block of the WSGI iterable (more = TRUE) / http.response.body
      eof                the WSGI iterable is exhausted (the ASGI end is a body event with more = FALSE)
    The property clauses are operators over (case, ev, begun, closes, ...) and are used both as
@@ -45,10 +48,12 @@
                         with the registry's, so "204 Custom" is sent with a body       (F14)
      ForgetCloseOnFault a fault that interrupts streaming skips close()
      StaleLengthOnRenderFault  after a render-phase fault the forced Content-Length of the (empty)
-                        error response is forgotten: none, or the application's stale one        *)
+                        error response is forgotten: none, or the application's stale one
+     StatusStringAsIs   the WSGI side hands a status that already is a str to start_response
+                        unchanged, so the bare code '404' goes out as the status line "404"      *)
 EXTENDS Integers, Sequences, FiniteSets, TLC
 
-CONSTANTS RenderSetsType, BodilessByLine, ForgetCloseOnFault, StaleLengthOnRenderFault
+CONSTANTS RenderSetsType, BodilessByLine, ForgetCloseOnFault, StaleLengthOnRenderFault, StatusStringAsIs
 
 BODILESS == {100, 101, 204, 304}
 TYPELESS == {204, 304}
@@ -125,10 +130,13 @@ StartCT(c) ==
     ELSE "fw"
 
 (* ---- events (uniform records, so that behaviours serialise uniformly) ---- *)
-Evt(k, n, more, src, idx, cl, ct) == [k |-> k, n |-> n, more |-> more, src |-> src, idx |-> idx, cl |-> cl, ct |-> ct]
-StartEvt(c)        == Evt("start", 0, TRUE, "", -1, StartCL(c), StartCT(c))
-BodyEvt(n, more, src, idx) == Evt("body", n, more, src, idx, -1, "")
-EofEvt             == Evt("eof", 0, FALSE, "", -1, -1, "")
+Evt(k, n, more, src, idx, cl, ct, sl) == [k |-> k, n |-> n, more |-> more, src |-> src, idx |-> idx, cl |-> cl, ct |-> ct, sl |-> sl]
+(* every spelling of a status is normalised: WSGI gets "DDD SP reason" (the registry's phrase, or a
+   stock one for an unknown code, when the application gave none), ASGI the integer code *)
+StatusLineOK(c)    == ~(StatusStringAsIs /\ ~IsAsgi(c) /\ c.form = "strcode")
+StartEvt(c)        == Evt("start", 0, TRUE, "", -1, StartCL(c), StartCT(c), StatusLineOK(c))
+BodyEvt(n, more, src, idx) == Evt("body", n, more, src, idx, -1, "", TRUE)
+EofEvt             == Evt("eof", 0, FALSE, "", -1, -1, "", TRUE)
 FinalEvt           == BodyEvt(0, FALSE, "", -1)
 
 IsFinal(e)  == e.k = "eof" \/ (e.k = "body" /\ ~e.more)
@@ -177,6 +185,7 @@ LengthConsistentC(o) ==
 BodilessHaveNoBytesC(o) == Bodiless(o.c) => Bytes(o.ev) = 0
 TypelessHaveNoFrameworkTypeC(o) == (Typeless(o.c) /\ Starts(o.ev) > 0) => StartOf(o.ev).ct # "fw"
 OthersHaveTypeC(o) == (~Typeless(o.c) /\ Starts(o.ev) > 0) => StartOf(o.ev).ct # "none"
+StatusLineWellFormedC(o) == Starts(o.ev) > 0 => StartOf(o.ev).sl
 CloseExactlyOnceOnceBegunC(o) ==
     /\ o.closes <= 1
     /\ (o.ended /\ o.begun /\ HasClose(o.c)) => o.closes = 1
@@ -301,6 +310,7 @@ LengthConsistent            == LengthConsistentC(Obs)
 BodilessHaveNoBytes         == BodilessHaveNoBytesC(Obs)
 TypelessHaveNoFrameworkType == TypelessHaveNoFrameworkTypeC(Obs)
 OthersHaveType              == OthersHaveTypeC(Obs)
+StatusLineWellFormed        == StatusLineWellFormedC(Obs)
 CloseExactlyOnceOnceBegun   == CloseExactlyOnceOnceBegunC(Obs)
 (* without a fault, and after a (handled) render-phase fault, every response is emitted to its end *)
 FaultFreeCompletes          == (pc = "done" /\ c.fk \in {"none", "render"}) => Obs.complete
